@@ -33,6 +33,9 @@ HashTorrent::start(bool try_quick) {
   m_error_message.clear();
   m_outstanding = 0;
 
+  // A timer left over from an earlier failed check must not confirm this one.
+  this_thread::scheduler()->erase(&m_delay_checked);
+
   queue(try_quick);
   return m_position == m_chunk_list->size();
 }
